@@ -313,6 +313,29 @@ ADDENDA4 = {
     "C18": "; by-value enum defaults under the current numbering; construction sites of the i.MX93 architecture subclass",
     "C19": "; tie probes of the 16-bit multiplier; softmax table boundary; log(0) stand-in value; nested table helpers interpreted",
 }
+ADDENDA5 = {
+    "C02": "; typestate over the pass pipeline (operator OFM shape vs the tensor of a bypassed Reshape, followed through calls); must-pass-through comparison of the published allocator total with the memory type's hard limit; slice folding only into consumers with the slice's view; tile-padding grid evaluation; flag / stem lints",
+    "C03": "; clauses shared with C02-m and C02-k (operator view after the Reshape bypass, slice folding); LUT index unit agreement",
+    "C04": "; tile selection conditions as canonical comparisons; fast-path premise of intersects() against the field set read by the address functions",
+    "C05": "; per-range alignment of LinearAlloc addresses; exact-total rule; None tests on optional ranges",
+    "C06": "; sibling flag consistency; pooling scale register fit (shared with C09-h)",
+    "C07": "; unconditional end-of-stream emission; swapped-argument lint at the C / Python boundary",
+    "C08": "; value_id refresh expressions contain the shape when the memo key is a value tuple",
+    "C09": "; interpretation of generate_ofm_scaling_for_pooling on a window x ratio grid (register fit and denoted value); NEP 50 float32 taint of the add / sub derivation and of products with the 31-bit pooling divisor, per branch",
+    "C10": "; whole-function interpretation of Box.transform_with_strides_and_skirt on a slice-window grid; proposed stripe heights vs the last operator's own upscaling factor; call-argument axis agreement",
+    "C11": "; shared-array discipline for quantisation vectors; no renaming of source tensors; restore of reader-overwritten option members for every written operator; emptiness test of the quantisation record over all members read; READ_VARIABLE hoisting vs ASSIGN_VARIABLE",
+    "C12": "; metadata records rebuilt on every write; subgraph references resolved for every control-flow operator; re-entered subgraphs marked live at each call site",
+    "C13": "; conditionally assigned locals read outside their condition; int() of possibly 1-D operand values; PACK / UNPACK axis normalisation by rank algebra; cross-indexed operand loops; subscripts of scalar quantisation fields; None passed to dereferencing wiring methods; constness constraint for every operand role the encoder reads; clause shared with C02-m",
+    "C14": "; mutation of shared module-level tables; total order of sorted sets of tuples; list(set) materialisation",
+    "C15": "; hardware constant table; binding stems; query freshness",
+    "C16": "; conditional constraints consult their condition and say so in their text; (w, h) getter unpacking; fusion requires the absorbed operator to be on the NPU",
+    "C17": "; size check after the last emission; wrapper delegation; chunk range",
+    "C18": "; faithful model of os.path.normpath in the configuration path interpretation; a selection reads its own default",
+    "C19": "; rounding mode of QUANTIZE folding; zero constants under zero point 0; x_real polynomials",
+}
+for _pid, _t5 in ADDENDA5.items():
+    _tech, _text, _note, _ref = CLAIMS[_pid]
+    CLAIMS[_pid] = (_tech + _t5, _text, _note, _ref)
 for _pid, _t4 in ADDENDA4.items():
     _tech, _text, _note, _ref = CLAIMS[_pid]
     CLAIMS[_pid] = (_tech + _t4, _text, _note, _ref)
